@@ -946,9 +946,10 @@ def jobs(tier):
         js.append({"kind": "grid", "shard": i})
     for i in range(NCORPUS):
         js.append({"kind": "corpus", "shard": i})
-    n = 450 if tier == "thorough" else 26
-    for i in range(32 if tier == "thorough" else 16):
-        js.append({"kind": "hyp", "shard": i, "n": n, "big": i % 4 == 0})
+    n = 600 if tier == "thorough" else 120
+    for i in range(48 if tier == "thorough" else 16):
+        big = i % 4 == 0
+        js.append({"kind": "hyp", "shard": i, "n": (n * 2) // 5 if big else n, "big": big})
     return js
 
 
